@@ -73,7 +73,7 @@ def pp():
 def item_spec(r: random.Random, N: int, fn: str, corner: dict | None = None) -> dict:
     spec = {
         "seed": r.randrange(1 << 30), "N": N,
-        "cloud": r.choice(U.CLOUD_KINDS), "extent": r.choice([1.0, 1.0, 1.0, 1e-3, 30.0]),
+        "cloud": r.choice(U.CLOUD_KINDS), "extent": r.choice([1.0, 1.0, 1.0, 1e-3, 30.0, 1e-6, 1e3, 1e6]),
         "rotate": r.random() < 0.6, "offset": r.choice([0.0, 0.0, 1.0, 3.0, 100.0, 1e4]),
         "qkind": r.choice(U.QUAT_KINDS),
         "scale": (r.choice([0.1, 0.5, 1.0, 1.0, 2.0, 10.0, 0.01, 100.0, r.uniform(0.1, 10)]) if fn == "svdstf" else 1.0),
@@ -131,6 +131,9 @@ def materialise(case):
         srcs.append(s)
         tgts.append(t)
         truths.append(tr)
+    if case.get("alias"):      # the same tensor is passed as source and target: the identity is the exact answer
+        tgts = [list(map(list, s_)) for s_ in srcs]
+        truths = [{"q": [0.0, 0.0, 0.0, 1.0], "t": [0.0, 0.0, 0.0], "s": 1.0, "exact": True} for _ in srcs]
     dt = case["dtype"]
     batch = tuple(case["batch"])
     N = case["N"]
@@ -146,6 +149,33 @@ def materialise(case):
         tgt_t = Tt[0]
         T64 = T64[0:1].expand(len(srcs), N, 3).clone()
     return src_t, tgt_t, S64, T64, truths
+
+
+LAYOUTS = ["contig", "contig", "strided", "transposed", "offset", "expanded"]
+
+
+def relayout(t: torch.Tensor, layout: str, batch_to=None):
+    """the same values as `t` presented as a non-trivial view: returns (view, backing buffer or None).
+    strided   : every second row / inner columns of a larger sentinel-filled buffer (non-contiguous in both axes)
+    transposed: stored as (..., 3, N), handed over as `.mT`
+    offset    : a contiguous slice in the middle of a larger 1-D buffer (non-zero storage offset)
+    expanded  : leading batch axes added with stride 0 (`expand`)"""
+    if layout == "strided":
+        big = torch.full(t.shape[:-2] + (2 * t.shape[-2] + 1, 5), 7.25, dtype=t.dtype)
+        v = big[..., 1:2 * t.shape[-2] + 1:2, 1:4]
+        v.copy_(t)
+        return v, big
+    if layout == "transposed":
+        big = t.mT.contiguous()
+        return big.mT, big
+    if layout == "offset":
+        n = t.numel()
+        big = torch.full((n + 10,), -3.5, dtype=t.dtype)
+        big[5:5 + n] = t.reshape(-1)
+        return big[5:5 + n].view(t.shape), big
+    if layout == "expanded" and batch_to is not None and t.dim() == 2:
+        return t.expand(tuple(batch_to) + tuple(t.shape)), t
+    return t, None
 
 
 def call_align(case, src_t, tgt_t):
@@ -302,6 +332,83 @@ def drive(ctx: Ctx, gens):
     return results
 
 
+def _safe_align(case, a, b):
+    with warnings.catch_warnings():
+        warnings.simplefilter("ignore")
+        try:
+            return call_align(case, a, b), None
+        except Exception as e:      # noqa: BLE001
+            return None, e
+
+
+def mixed_and_stale(ctx: Ctx, case, src_t, tgt_t, S64, T64, Xf, eps) -> bool:
+    """(7) every item of a batched call against the same call on that item alone; (5) the caller's tensors are updated in
+    place after the call and the function is called again: the result must describe the *current* contents."""
+    fn, nb = case["fn"], len(case["items"])
+    dt = src_t.dtype
+    ok = True
+    if nb > 1:
+        ctx.count("align.item-alone", nb)
+        for i in range(nb):
+            src = S64[i if case["bcast"] != "src1" else 0]
+            tgt = T64[i]
+            st = U.stats(src, tgt)
+            if st["A"] == 0 or st["B"] == 0:
+                continue
+            Xi, err = _safe_align(case, src.to(dt), tgt.to(dt))
+            if err is not None:
+                ctx.count("align.item-alone-raises")     # mat2Sim3's batch-level rank test: alone the item may raise
+                continue
+            Xi = Xi.tensor().detach().double().reshape(-1)
+            if Xi.shape != Xf[i].shape or not torch.isfinite(Xi).all() or not torch.isfinite(Xf[i]).all():
+                continue
+            cb, ca = U.cost_vec(Xf[i], src, tgt), U.cost_vec(Xi, src, tgt)
+            sc = float(Xi[7]) if fn == "svdstf" else 1.0
+            cent = 1 + st["Ds"] / st["ss"] + st["Dt"] / st["st"]
+            e64 = common.EPS["float64"]
+            tol = cost_tol(eps, st, sc, cent) + 32 * e64 * (st["Dt"] + sc * st["Ds"]) * math.sqrt(st["N"] * max(cb, ca, 0.0)) \
+                + 64 * st["N"] * (e64 * (st["Dt"] + sc * st["Ds"])) ** 2
+            track("alone", abs(cb - ca), tol)
+            if not (abs(cb - ca) <= tol):
+                ctx.fail(dict(case, item=i), f"batch: item {i} of the batched {fn} call has sum of squared residuals {cb:.6e}, the same item alone "
+                                             f"{ca:.6e} (allowance {tol:.2e}; batch {case['batch']}, {case['bcast']})")
+                ok = False
+    if case.get("alias") or case["bcast"] != "none" or src_t.numel() == 0:
+        return ok
+    # stale reads: overwrite the caller's tensors in place (through the views they were given as) and call again
+    new_src = (src_t.flip(-2) * 1.5 + 0.25 * float(src_t.abs().max())).clone()
+    new_tgt = (tgt_t.roll(1, -2) * 0.75).clone()
+    src_t.copy_(new_src)
+    tgt_t.copy_(new_tgt)
+    Xs, e1 = _safe_align(case, src_t, tgt_t)
+    Xr, e2 = _safe_align(case, new_src, new_tgt)
+    ctx.count("align.stale-read")
+    if (e1 is None) != (e2 is None):
+        ctx.fail(case, f"stale: after an in-place update of its arguments {fn} {'raises' if e1 else 'returns'} while a fresh call on the "
+                       f"same values {'raises' if e2 else 'returns'} ({type(e1 or e2).__name__})")
+        return False
+    if e1 is None:
+        Xs = Xs.tensor().detach().double().reshape(nb, -1)
+        Xr = Xr.tensor().detach().double().reshape(nb, -1)
+        for i in range(nb):
+            a, b = new_src.double().reshape(nb, -1, 3)[i], new_tgt.double().reshape(nb, -1, 3)[i]
+            st = U.stats(a, b)
+            if st["A"] == 0 or st["B"] == 0 or not torch.isfinite(Xs[i]).all() or not torch.isfinite(Xr[i]).all():
+                continue
+            cs_, cr_ = U.cost_vec(Xs[i], a, b), U.cost_vec(Xr[i], a, b)
+            sc = float(Xr[i][7]) if fn == "svdstf" else 1.0
+            cent = 1 + st["Ds"] / st["ss"] + st["Dt"] / st["st"]
+            e64 = common.EPS["float64"]
+            tol = cost_tol(eps, st, sc, cent) + 32 * e64 * (st["Dt"] + sc * st["Ds"]) * math.sqrt(st["N"] * max(cs_, cr_, 0.0)) \
+                + 64 * st["N"] * (e64 * (st["Dt"] + sc * st["Ds"])) ** 2
+            track("stale", abs(cs_ - cr_), tol)
+            if not (abs(cs_ - cr_) <= tol):
+                ctx.fail(dict(case, item=i), f"stale: after an in-place update of the caller's tensors {fn} returns a transform with sum of squared "
+                                             f"residuals {cs_:.6e} on the current contents; a fresh call gives {cr_:.6e} (allowance {tol:.2e})")
+                ok = False
+    return ok
+
+
 def check_align_case(ctx: Ctx, case, use_model=True) -> bool:
     return drive(ctx, [check_align_gen(ctx, case, use_model)])[0]
 
@@ -312,6 +419,13 @@ def check_align_gen(ctx: Ctx, case, use_model=True):
     src_t, tgt_t, S64, T64, truths = materialise(case)
     nb = len(case["items"])
     batch = tuple(case["batch"])
+    # views and aliases: the arguments are handed over as non-trivial views of larger buffers
+    lay = case.get("layout", ["contig", "contig"])
+    src_t, sbuf = relayout(src_t, lay[0], batch if case["bcast"] == "src1" else None)
+    tgt_t, tbuf = relayout(tgt_t, lay[1], batch if case["bcast"] == "tgt1" else None)
+    if case.get("alias"):
+        tgt_t = src_t       # the very same tensor object as both arguments
+    keep = [(b, b.clone()) for b in (sbuf, tbuf) if b is not None]
     mon = common.PurityMonitor()
     ok = True
     raised = None
@@ -322,8 +436,12 @@ def check_align_gen(ctx: Ctx, case, use_model=True):
         except Exception as e:      # noqa: BLE001 — the real code raised
             raised = e
     if mon.mutations:
-        ctx.fail(case, f"mutation: {fn} changed its argument {mon.mutations[0]['argument']}")
+        ctx.fail(case, f"mutation: {fn} changed its argument {mon.mutations[0]['argument']} (layout {lay})")
         ok = False
+    for b, b0 in keep:
+        if not torch.equal(b, b0):
+            ctx.fail(case, f"mutation: {fn} wrote into the buffer its argument is a view of (layout {lay})")
+            ok = False
     # model lines (one per item)
     lines = []
     for i in range(nb):
@@ -375,6 +493,7 @@ def check_align_gen(ctx: Ctx, case, use_model=True):
                        f"for batch {batch} dtype {dtype}")
         return False
     Xf = X.tensor().detach().double().reshape(nb, dim)
+    ok = mixed_and_stale(ctx, case, src_t, tgt_t, S64, T64, Xf, eps) and ok
     # exact cost of the implementation's transform (model arithmetic)
     lines2 = []
     for i in range(nb):
@@ -513,7 +632,11 @@ def random_align_case(r: random.Random) -> dict:
     if N >= 50 and batch:
         batch = (2,)
     bcast = "none" if not batch else r.choice(["none", "none", "none", "src1", "tgt1"])
-    return build_case(r, fn, N, dtype, batch, bcast, with_scale=(r.random() < 0.8))
+    case = build_case(r, fn, N, dtype, batch, bcast, with_scale=(r.random() < 0.8))
+    case["layout"] = [r.choice(LAYOUTS), r.choice(LAYOUTS)]
+    if bcast == "none" and r.random() < 0.06:
+        case["alias"] = True
+    return case
 
 
 def sig_align(case):
